@@ -245,6 +245,8 @@ fn main() {
             let res = format!("{scratch}/libloom-{pid}-{}.json", sc.name); let _ = std::fs::remove_file(&res);
             let ck = if replay { format!("{ckdir}/libloom-{}.ckpt", sc.name) } else { format!("{scratch}/libloom-{pid}-{}.ckpt", sc.name) };
             let mut c = std::process::Command::new(&exe); c.args(["--child", sc.name, &tier, &res, &ck]); if replay { c.arg("replay"); }
+            // a child must not outlive the orchestrator (a driver time-out would otherwise leave explorations running)
+            unsafe { use std::os::unix::process::CommandExt; c.pre_exec(|| { extern "C" { fn prctl(option: i32, arg2: u64, arg3: u64, arg4: u64, arg5: u64) -> i32; } prctl(1, 9, 0, 0, 0); Ok(()) }); }
             let out = c.stdout(std::process::Stdio::null()).stderr(std::process::Stdio::piped()).output().expect("spawn child");
             let text = std::fs::read_to_string(&res).ok();
             if text.as_ref().map_or(true, |t| t.contains("\"violation\":\"")) && !replay { let _ = std::fs::copy(&ck, format!("{ckdir}/libloom-{}.ckpt", sc.name)); }
